@@ -224,28 +224,29 @@ func ParseControlFile(data []byte) (*ControlFile, error) {
 	cf.MaxLocksPerXact = int32(binary.LittleEndian.Uint32(data[196:200]))
 	cf.TrackCommitTS = data[200] != 0
 
-	// Storage parameters - find by looking for block_size (8192)
-	storageOffset := findStorageSection(data, 220)
-	if storageOffset > 0 {
-		cf.MaxAlign = binary.LittleEndian.Uint32(data[storageOffset : storageOffset+4])
-		cf.BlockSize = binary.LittleEndian.Uint32(data[storageOffset+8 : storageOffset+12])
-		cf.BlocksPerSeg = binary.LittleEndian.Uint32(data[storageOffset+12 : storageOffset+16])
-		cf.WALBlockSize = binary.LittleEndian.Uint32(data[storageOffset+16 : storageOffset+20])
-		cf.WALSegmentSize = binary.LittleEndian.Uint32(data[storageOffset+20 : storageOffset+24])
-		cf.NameDataLen = binary.LittleEndian.Uint32(data[storageOffset+24 : storageOffset+28])
-		cf.IndexMaxKeys = binary.LittleEndian.Uint32(data[storageOffset+28 : storageOffset+32])
-		cf.TOASTMaxChunk = binary.LittleEndian.Uint32(data[storageOffset+32 : storageOffset+36])
-		cf.LargeObjectChunk = binary.LittleEndian.Uint32(data[storageOffset+36 : storageOffset+40])
+	// Storage parameters, fixed offsets in PostgreSQL 12-16:
+	// maxAlign at 204, floatFormat (double) at 208, blcksz at 216, relseg_size at 220,
+	// xlog_blcksz at 224, xlog_seg_size at 228, nameDataLen at 232, indexMaxKeys at 236,
+	// toast_max_chunk_size at 240, loblksize at 244, data_checksum_version (uint32) at 252
+	cf.MaxAlign = binary.LittleEndian.Uint32(data[204:208])
 
-		// Float format check (1234567.0 as float64)
-		floatVal := math.Float64frombits(binary.LittleEndian.Uint64(data[storageOffset+40 : storageOffset+48]))
-		cf.FloatFormatOK = floatVal == 1234567.0
+	// Float format check (1234567.0 as float64)
+	floatVal := math.Float64frombits(binary.LittleEndian.Uint64(data[208:216]))
+	cf.FloatFormatOK = floatVal == 1234567.0
 
-		// Data checksums flag
-		cf.DataChecksumsEnabled = data[storageOffset+48] != 0
-	}
+	cf.BlockSize = binary.LittleEndian.Uint32(data[216:220])
+	cf.BlocksPerSeg = binary.LittleEndian.Uint32(data[220:224])
+	cf.WALBlockSize = binary.LittleEndian.Uint32(data[224:228])
+	cf.WALSegmentSize = binary.LittleEndian.Uint32(data[228:232])
+	cf.NameDataLen = binary.LittleEndian.Uint32(data[232:236])
+	cf.IndexMaxKeys = binary.LittleEndian.Uint32(data[236:240])
+	cf.TOASTMaxChunk = binary.LittleEndian.Uint32(data[240:244])
+	cf.LargeObjectChunk = binary.LittleEndian.Uint32(data[244:248])
 
-	// Default values if not found
+	// Data checksums are enabled when data_checksum_version is non-zero
+	cf.DataChecksumsEnabled = binary.LittleEndian.Uint32(data[252:256]) != 0
+
+	// Default values if the stored value is zero
 	if cf.BlockSize == 0 {
 		cf.BlockSize = 8192
 	}
@@ -266,24 +267,6 @@ func ParseControlFile(data []byte) (*ControlFile, error) {
 	}
 
 	return cf, nil
-}
-
-// findStorageSection finds the storage parameters section
-func findStorageSection(data []byte, startOffset int) int {
-	// Look for block_size (8192) pattern
-	for i := startOffset; i < len(data)-48 && i < 300; i += 4 {
-		// max_align is typically 8
-		val0 := binary.LittleEndian.Uint32(data[i : i+4])
-		// block_size is 8192
-		val1 := binary.LittleEndian.Uint32(data[i+8 : i+12])
-		// wal_block_size is 8192
-		val3 := binary.LittleEndian.Uint32(data[i+16 : i+20])
-
-		if val0 == 8 && val1 == 8192 && val3 == 8192 {
-			return i
-		}
-	}
-	return 0
 }
 
 // formatLSN formats an LSN as PostgreSQL does (high/low)
